@@ -12,6 +12,7 @@ RULE = ("pair classes re-weighted towards one-8-bit-step straddles of each thres
         "(composite for translucent text); else read-back ratio >= original ratio. Non-trivial = original below minimum "
         "or within 1% above it; distinct = (text,bg,kinds,config).")
 ASSUMPTIONS = ["oracles wcag/csscolor (self-tested)", "translucent originals: the library's composite, accepted only within C13's 1.5 units of the exact blend"]
+ENUMERATED = {"quick": [], "thorough": ["all 216 x 216 web-safe colour pairs (one configuration each)", "every third grey level squared (two configurations each)"]}
 MUST_OBSERVE = {"any": ["kept_judged", "noharm_judged"]}
 SIZES = {"quick": dict(pairs=2000, cfgs=4), "thorough": dict(pairs=10000, cfgs=12)}
 
@@ -57,6 +58,9 @@ def shards(tier, seed):
     cases = PW.build_cases(seed, "c02", z["pairs"], per_pair_configs=z["cfgs"], classes=classes)
     out = [{"kind": "pairs", "cases": c} for c in PW.chunk(cases, 64 if tier == "thorough" else 16)]
     out.append({"kind": "pairs", "cases": PW.same_string_cases(seed, "c02", n_bgs=6 if tier == "quick" else 24)})
+    if tier == "thorough":
+        out += [{"kind": "pairs", "cases": c} for c in PW.chunk(PW.lattice_cases(seed, "c02", "websafe", 1), 32)]
+        out += [{"kind": "pairs", "cases": c} for c in PW.chunk(PW.lattice_cases(seed, "c02", "grey", 2), 16)]
     return out
 
 
